@@ -23,12 +23,4 @@ theorem fi_epsilon_gen {s : St ι} (h : ReachMed genTun s) :
 example : ∃ s : St Nat, ReachMed genTun s ∧ s.total = 5 :=
   ⟨_, ReachMed.upd 1 5 0 (ReachMed.new 3 3 (by decide)) (by intro h; exact absurd h (by decide)), by decide⟩
 
-/-- the bracketing theorem instantiated at the generated tunables (no side condition) -/
-theorem fi_bracket_gen {s : St ι} {f : ι → Nat} {N : Nat} (h : Reach genTun true s f N) (x : ι) :
-    lowerBound s x ≤ f x ∧ f x ≤ upperBound s x :=
-  ⟨(fi_bracket genTun h x).1, (fi_bracket genTun h x).2.1⟩
-
-example : ∃ (s : St Nat) (f : Nat → Nat) (N : Nat), Reach genTun true s f N ∧ s.total = 5 :=
-  ⟨_, _, _, Reach.upd 1 5 0 (Reach.new 3 3 (by decide)), by decide⟩
-
 end DS.Fi
